@@ -5,7 +5,7 @@ import storefam
 import vlib
 
 PID = "C07"
-FILES = ["theories/Properties/C07.v", "theories/Examples/C07Examples.v"]
+FILES = ["theories/Properties/C07.v", "theories/Properties/C07ErrFlow.v", "theories/Examples/C07Examples.v"]
 
 
 def compare(a, b):
@@ -50,13 +50,25 @@ def main(argv):
     c = vlib.Check(PID, argv)
     c.assumptions = ["bbolt rollback restores the previous content (trusted; observed by the full traversal after every transaction)",
                      "one MutateContext per transaction (re-using a context across transactions is documented misuse)"]
-    proof_ok = c.proof_step(FILES)
+    proof_ok = c.proof_step(FILES, translators=["errflow"])
     storefam.run_family(c, "c07", 1500, 20000, compare, oracle,
                         "seeded histories of 1-7 transactions x 1-4 operations over three schema wirings with injected faults: caller error at a random "
                         "position (20%), failing pre-commit action (15%), constraint veto on create/update/delete or on the parent/child event (20%), "
                         "duplicates, missing fk targets, unusable keys (empty set-index value, blank id); after every transaction the bolt file is "
                         "traversed and compared with the model state, results and delivered events included.")
     if not proof_ok:
-        c.violation(PID + ":proof", "proof obligation no longer checks: %s" % json.dumps(c.proof_broken)[:600],
-                    dict(broken=c.proof_broken), no_input=True)
+        # name the rows of the regenerated error-plumbing table that break generated_errflow_ok
+        bad = []
+        try:
+            import re, os
+            for line in open(os.path.join(vlib.COQ, "theories", "Gen", "GenErrFlow.v")):
+                m = re.search(r'mkRow "([^"]*)" "([^"]*)" (\d+) (DSwallow|DDiscard) "([^"]*)"', line)
+                if m and not (m.group(4) == "DDiscard" and m.group(5).startswith("call fmt.")):
+                    bad.append("%s %s #%s %s (%s)" % m.groups())
+        except Exception:
+            pass
+        c.violation(PID + ":proof", "proof obligation no longer checks (%s): %s" % (
+            "; ".join(bad) if bad else "see broken", json.dumps(c.proof_broken)[:400]),
+                    dict(broken=c.proof_broken, errflow_rows=bad,
+                         theorem="generated_errflow_ok" if bad else None), no_input=True)
     return c.finish()
